@@ -25,6 +25,12 @@ pub struct Latch {
     cap: Duration,
 }
 
+impl Latch {
+    pub fn new(target: u32, cap: Duration) -> Latch {
+        Latch { target, entered: AtomicBool::new(false), open: AtomicBool::new(false), timed_out: AtomicBool::new(false), cap }
+    }
+}
+
 impl Driver for Latch {
     fn gate(&self, _ctx: &Ctx, uid: u32, g: Gate) {
         if uid != self.target || g != Gate::PostRun || self.entered.swap(true, SeqCst) {
@@ -66,6 +72,20 @@ fn strip_tl(plan: &Plan) -> Plan {
 }
 
 fn case(rng: &mut Rng, pools: &mut Pools, rep: &mut Report, case_no: u64) {
+    let pool_size = *rng.pick(&POOL_SIZES);
+    let pool = pools.get(pool_size);
+    // every 6th history (pools of 4+ threads) is driven by a *worker of the dispatcher's own pool*:
+    // the dispatcher is built, used and dropped inside `pool.install`
+    if case_no % 6 == 2 && pool_size >= 4 {
+        rep.metric("histories_driven_by_a_worker_of_the_own_pool", 1);
+        let p2 = pool.clone();
+        p2.install(|| case_body(rng, pool, pool_size, rep, case_no));
+    } else {
+        case_body(rng, pool, pool_size, rep, case_no);
+    }
+}
+
+fn case_body(rng: &mut Rng, pool: crate::sys::Pool, pool_size: usize, rep: &mut Report, case_no: u64) {
     let profile = *rng.pick(&PROFILES);
     let mut c = cfg_for(profile, rng);
     c.n = (c.n.0.min(2), c.n.1.min(12));
@@ -82,8 +102,6 @@ fn case(rng: &mut Rng, pools: &mut Pools, rep: &mut Report, case_no: u64) {
     } else {
         gen_with(rng, &c)
     };
-    let pool_size = *rng.pick(&POOL_SIZES);
-    let pool = pools.get(pool_size);
     rep.evaluations += 1;
     let n_uids = plan.n_uids();
     // completions one dispatch adds: every ordinary leaf system, times its multiplicity
